@@ -24,7 +24,8 @@ class LoopSpec:
     heap     : callable(I, st) -> None, havocs the heap locations the loop may modify
     """
 
-    def __init__(self, header, inv=None, modifies=None, heap=None, name=None, entry_oblig=None, exit_oblig=None):
+    def __init__(self, header, inv=None, modifies=None, heap=None, name=None, entry_oblig=None, exit_oblig=None,
+                 elem_facts=None):
         self.header = header
         self.inv = inv
         self.modifies = modifies
@@ -32,6 +33,7 @@ class LoopSpec:
         self.name = name
         self.entry_oblig = entry_oblig    # callable(I, st) -> [(name, formula)] proved at loop entry
         self.exit_oblig = exit_oblig      # callable(I, st) -> [(name, formula)] proved after the loop (inv at the whole sequence assumed)
+        self.elem_facts = elem_facts      # callable(I, st, x) -> [formulas]: instances of (quantified) contract assumptions at the arbitrary element
 
 
 def assigned_names(stmts):
@@ -316,6 +318,8 @@ def _for_symbolic(I, s, st, skind, seq, ctx, elem_val=None, spec_iter_text=None,
             it.pc.append(z3.Implies(f.tfn(seq, vm.tlen(seq)), z3.And(px, f.tfn(seq, i))))   # ∀-elimination at i
         p_pre = Prefix("tuple", t=seq, n=i)
         p_next = Prefix("tuple", t=seq, n=i + 1)
+    if spec is not None and spec.elem_facts is not None:
+        it.pc += list(spec.elem_facts(I, it, x))
     if inv is not None:
         it.pc.append(inv(I, it, p_pre))
     heap_before = {k: dict(h.fields) for k, h in it.heap.items()}
